@@ -61,6 +61,17 @@ def minimise(mod, case, sig):
     return small if still(small) else case
 
 
+def replays(path):
+    env = dict(os.environ)
+    env.pop('PYTHONPATH', None)
+    try:
+        p = subprocess.run([PY, os.path.abspath(__file__), '--replay', path], stdout=subprocess.PIPE, stderr=subprocess.PIPE,
+                           env=env, timeout=900)
+    except subprocess.TimeoutExpired:
+        return False
+    return p.returncode == 1 or b'KNOWN-FINDING' in p.stdout
+
+
 def worker_main(args):
     faulthandler.enable()
     mod = load_prop(args.prop)
@@ -71,9 +82,10 @@ def worker_main(args):
     res = {
         'evaluations': 0, 'runs': 0, 'cover': {}, 'faults': {}, 'probes': {},
         'sim_time': 0.0, 'steps': 0, 'violations': [], 'known': {}, 'samples': [],
-        'digests': {}, 'truncated': False, 'errors': [], 'knobs': {},
+        'digests': {}, 'truncated': False, 'errors': [], 'knobs': {}, 'unreplayable': [],
     }
     seen_sigs = set()
+    tries = {}
     runs = [int(x) for x in args.runs.split(',')] if args.runs else \
         range(args.widx, args.nruns, args.nworkers)
     for run in runs:
@@ -112,15 +124,26 @@ def worker_main(args):
                 ent = res['known'].setdefault(sig, {'count': 0, 'what': kf.get('description', v.msg)})
                 ent['count'] += 1
                 continue
-            if sig in seen_sigs or len(seen_sigs) >= args.maxsigs:
+            if sig in seen_sigs or len(seen_sigs) >= args.maxsigs or tries.get(sig, 0) >= 3:
                 continue
-            seen_sigs.add(sig)
+            tries[sig] = tries.get(sig, 0) + 1
             small = minimise(mod, case, sig)
             o2 = mod.execute(small)
             v2 = ([x for x in o2.violations if x.sig == sig] or [v])[0]
             path = core.write_replay(mod.ID, args.seed, run, hashseed, small, v2.as_dict(),
                                      tag=core.digest(sig)[:6], minimised_from={'case_bytes': len(core.jdump(case)),
                                                      'min_bytes': len(core.jdump(small))})
+            # A violation only counts if it replays in a *fresh* interpreter: state left by earlier runs of this
+            # worker (a cache in the code under test) must not be part of it, and minimisation ran in this process.
+            if not replays(path):
+                path = core.write_replay(mod.ID, args.seed, run, hashseed, case, v.as_dict(), tag=core.digest(sig)[:6],
+                                         minimised_from={'note': 'minimised case did not replay in a fresh interpreter; unminimised case kept'})
+                if not replays(path):
+                    res['unreplayable'].append({'run': run, 'sig': sig, 'msg': v.msg})
+                    os.unlink(path)
+                    continue
+                v2 = v
+            seen_sigs.add(sig)
             res['violations'].append({'run': run, 'sig': sig, 'msg': v2.msg, 'replay': path})
     with open(args.out, 'w') as f:
         json.dump(res, f, default=core._default)
@@ -233,6 +256,8 @@ def driver_main(args):
             for k, v in r[d].items():
                 merged[d][k] = merged[d].get(k, 0) + v
         merged['violations'] += r['violations']
+        merged.setdefault('unreplayable', [])
+        merged['unreplayable'] += r.get('unreplayable', [])
         for k, v in r['known'].items():
             e = merged['known'].setdefault(k, {'count': 0, 'what': v['what']})
             e['count'] += v['count']
@@ -270,6 +295,12 @@ def driver_main(args):
             harness_errors.append('violation %s (run %s) did not replay: exit %s %s' % (
                 v['sig'], v['run'], rp.returncode, rp.stdout.decode(errors='replace')[-500:]))
 
+    got = set(v['sig'] for v in confirmed)
+    for u in merged.get('unreplayable', []):
+        if u['sig'] not in got:
+            got.add(u['sig'])
+            harness_errors.append('violation %s (run %s) was seen in a worker but replays in no fresh interpreter '
+                                  '(result depends on state left by earlier runs of that worker): %s' % (u['sig'], u['run'], u['msg'][:200]))
     write_evidence(mod, tier, seed, merged, det, wall_s, len(confirmed), nworkers, harness_errors)
 
     for sig, e in sorted(merged['known'].items()):
